@@ -90,8 +90,26 @@ template<int D> struct Lay {
 template<> struct Lay<0> {
   static multi::layout_t<0> make(Dim const*) { return multi::layout_t<0>(multi::extensions_t<0>{}); }
 };
-template<int D, class T = ELEM, class P = T*> static inline multi::subarray<T, D, P> view_of(Spec<D> const& s, P root) {
-  return multi::subarray<T, D, P>(Lay<D>::make(s.d), root + s.origin);
+// pointer type of the views under test: raw (default), minimal fancy pointer (-DVF_FANCY=1), bounds-tracking pointer (-DVF_FANCY=2)
+#if defined(VF_FANCY)
+#include "fancy.hpp"
+#endif
+#if defined(VF_FANCY) && VF_FANCY == 1
+template<class T> using vf_ptr = fptr<T>;
+template<class T> static inline fptr<T> vf_mkptr(T* root, long /*cells*/) { return fptr<T>::from(root); }
+#elif defined(VF_FANCY) && VF_FANCY == 2
+template<class T> using vf_ptr = cptr<T>;
+template<class T> static inline cptr<T> vf_mkptr(T* root, long cells) { return cptr<T>::from(root, root, root + cells); }
+#else
+template<class T> using vf_ptr = T*;
+template<class T> static inline T* vf_mkptr(T* root, long /*cells*/) { return root; }
+template<class T> static inline T* raw_of(T* p) { return p; }
+#endif
+#ifndef VF_ROOT_CELLS
+#define VF_ROOT_CELLS MEMSZ
+#endif
+template<int D, class T = ELEM> static inline multi::subarray<T, D, vf_ptr<T>> view_of(Spec<D> const& s, T* root, long cells = VF_ROOT_CELLS) {
+  return multi::subarray<T, D, vf_ptr<T>>(Lay<D>::make(s.d), vf_mkptr<T>(root, cells) + s.origin);
 }
 
 // ---- access paths
